@@ -506,6 +506,16 @@ pub fn build(spec: &RecorderSpec) -> Model {
 
     let mut occs: Vec<Occ> = vec![];
     let mut perm_rng = spec.irregular.perm_pseed.map(Rng::new);
+    // last payloads per character, for "sticky" repeats
+    let mut last_pre: BTreeMap<(usize, bool), Vec<u8>> = BTreeMap::new();
+    let mut last_post: BTreeMap<(usize, bool), Vec<u8>> = BTreeMap::new();
+    let restamp = |ev: &mut Vec<u8>, id: i32| ev[1..5].copy_from_slice(&id.to_be_bytes());
+    let blank_out = |rng: &mut Rng, ev: &mut Vec<u8>, hdr: usize| {
+        let fill = if rng.chance(1, 2) { 0u8 } else { 0xFF };
+        for b in ev.iter_mut().skip(hdr) {
+            *b = fill;
+        }
+    };
     for (oi, fs) in spec.frames.iter().enumerate() {
         let mut rng = Rng::new(fs.pseed);
         let mut occ = Occ { id: fs.id, ..Default::default() };
@@ -524,8 +534,28 @@ pub fn build(spec: &RecorderSpec) -> Model {
         }
         for &(slot, fol) in &chars {
             let port = spec.ports[slot].port;
-            let pre = frame_event(&mut rng, Kind::Pre, v, tr(L::CODE_PRE), spec.special_rate, fs.id, port, fol);
-            let post = frame_event(&mut rng, Kind::Post, v, tr(L::CODE_POST), spec.special_rate, fs.id, port, fol);
+            let mut pre = frame_event(&mut rng, Kind::Pre, v, tr(L::CODE_PRE), spec.special_rate, fs.id, port, fol);
+            let mut post = frame_event(&mut rng, Kind::Post, v, tr(L::CODE_POST), spec.special_rate, fs.id, port, fol);
+            if spec.sticky > 0 {
+                if let (Some(p), true) = (last_pre.get(&(slot, fol)), rng.below(spec.sticky as u64) == 0) {
+                    pre = p.clone();
+                    restamp(&mut pre, fs.id);
+                }
+                if let (Some(p), true) = (last_post.get(&(slot, fol)), rng.below(spec.sticky as u64) == 0) {
+                    post = p.clone();
+                    restamp(&mut post, fs.id);
+                }
+            }
+            if spec.blank > 0 {
+                if rng.below(spec.blank as u64) == 0 {
+                    blank_out(&mut rng, &mut pre, 7);
+                }
+                if rng.below(spec.blank as u64) == 0 {
+                    blank_out(&mut rng, &mut post, 7);
+                }
+            }
+            last_pre.insert((slot, fol), pre.clone());
+            last_post.insert((slot, fol), post.clone());
             occ.chars.insert((slot, fol), CharData { pre, post });
         }
         let mut items: Vec<Vec<u8>> = vec![];
